@@ -223,29 +223,16 @@ func c04r3(p *Program, r *Report) {
 	// (a) header prefixes in parseFrame: [uuid] iff 0x02, [string list] iff 0x08, [bytes map] iff 0x04, in this order
 	if fi := r.NeedFunc("(*framer).parseFrame"); fi != nil {
 		tr := newReadTracer(p, "(*framer).readTrace")
+		// the per-opcode body parsers dispatched at the end of parseFrame are separate layouts
+		tr.noAuto = func(name string) bool { return strings.HasPrefix(name, "(*framer).parse") }
 		tr.prims = map[string]string{"(*framer).readUUID": "[uuid]", "(*framer).readStringList": "[string list]", "(*framer).readBytesMap": "[bytes map]"}
 		n, bad := 0, 0
 		for _, st := range tr.run(fi, 4) {
-			var want []string
-			bit := func(mask string) bool {
-				for k, v := range st.assume {
-					if strings.HasPrefix(k, "bit:") && strings.HasSuffix(k, ":"+mask) && strings.Contains(k, "header.flags") {
-						return v
-					}
-				}
-				return false
-			}
 			if st.assume["f.header.version.request()"] {
 				continue
 			}
-			if bit("0x2") {
-				want = append(want, "[uuid]")
-			}
-			if bit("0x8") {
-				want = append(want, "[string list]")
-			}
-			if bit("0x4") {
-				want = append(want, "[bytes map]")
+			if v, ok := st.assume["bit:f.header.version:0x80"]; ok && !v {
+				continue // a frame with the request direction is refused before anything else is read
 			}
 			got := notations(flat(st.trace))
 			var gotP []string
@@ -255,7 +242,25 @@ func c04r3(p *Program, r *Report) {
 				}
 			}
 			n++
-			if strings.Join(gotP, " ") != strings.Join(want, " ") {
+			var want []string
+			mismatch := false
+			for _, bits := range bitCompletions(st, []string{"0x2", "0x8", "0x4"}, "header.flags") {
+				want = nil
+				if bits["0x2"] {
+					want = append(want, "[uuid]")
+				}
+				if bits["0x8"] {
+					want = append(want, "[string list]")
+				}
+				if bits["0x4"] {
+					want = append(want, "[bytes map]")
+				}
+				if strings.Join(gotP, " ") != strings.Join(want, " ") {
+					mismatch = true
+					break
+				}
+			}
+			if mismatch {
 				bad++
 				if bad <= 2 {
 					r.Bad(fi.Decl, "(*framer).parseFrame header prefixes", fmt.Sprintf("on path [%s] the prefixes read are `%s`, the specification's order for these header flags is `%s` (tracing id, warnings, custom payload)", assumeStr(st), strings.Join(gotP, " "), strings.Join(want, " ")))
@@ -372,15 +377,8 @@ func c04r3(p *Program, r *Report) {
 		}
 	}
 	// (d) metadata
-	metaSpec := func(v int, st *pathState, prepared bool) []string {
-		bit := func(mask string) bool {
-			for k, val := range st.assume {
-				if strings.HasPrefix(k, "bit:") && strings.HasSuffix(k, ":"+mask) && strings.Contains(k, "flags") {
-					return val
-				}
-			}
-			return false
-		}
+	metaSpec := func(v int, bits map[string]bool, prepared bool) []string {
+		bit := func(mask string) bool { return bits[mask] }
 		out := []string{"[int]", "[int]"}
 		if prepared && v >= 4 {
 			out = append(out, "[int]", "loop{[short]}")
@@ -417,12 +415,15 @@ func c04r3(p *Program, r *Report) {
 				}
 				n++
 				got := notations(flat(st.trace))
-				want := metaSpec(v, st, m.prepared)
-				if strings.Join(got, " ") != strings.Join(want, " ") {
-					// documented deviation: PREPARED metadata also reads a paging state under has_more_pages (never set by servers)
-					bad++
-					if bad <= 3 {
-						r.Bad(fi.Decl, fmt.Sprintf("%s v%d layout", m.fn, v), fmt.Sprintf("on path [%s] reads `%s`; the specification's metadata layout for these flags is `%s`", assumeStr(st), strings.Join(got, " "), strings.Join(want, " ")))
+				// a flag bit the path never tested can have either value: the layout read must be right for both
+				for _, bits := range bitCompletions(st, []string{"0x1", "0x2", "0x4"}, "flags") {
+					want := metaSpec(v, bits, m.prepared)
+					if strings.Join(got, " ") != strings.Join(want, " ") {
+						bad++
+						if bad <= 3 {
+							r.Bad(fi.Decl, fmt.Sprintf("%s v%d layout", m.fn, v), fmt.Sprintf("on path [%s] with flag bits %s reads `%s`; the specification's metadata layout for these flags is `%s`", assumeStr(st), bitsStr(bits), strings.Join(got, " "), strings.Join(want, " ")))
+						}
+						break
 					}
 				}
 			}
@@ -725,4 +726,44 @@ func c04r6(p *Program, r *Report) {
 	r.Check(whole, branch, "(*Conn).executeQuery skip-metadata uses the prepared statement's whole result metadata", "iter.meta = info.response",
 		"with skip-metadata the iterator does not take the prepared statement's complete result metadata (columns AND column counts): a no-metadata ROWS frame has no tuple-expanded column count, Scan rejects the right number of destinations")
 	r.Check(paging, branch, "(*Conn).executeQuery skip-metadata keeps the response's paging state", "iter.meta.pagingState = copy of x.meta.pagingState", "with skip-metadata the paging state of the response is not carried into the iterator: paging stops or repeats")
+}
+
+// bitCompletions: the values of the given flag masks on a path; a mask whose bit the path never tested is
+// enumerated with both values (the path is taken for either).
+func bitCompletions(st *pathState, masks []string, subjContains string) []map[string]bool {
+	out := []map[string]bool{{}}
+	for _, m := range masks {
+		val, decided := false, false
+		for k, v := range st.assume {
+			if strings.HasPrefix(k, "bit:") && strings.HasSuffix(k, ":"+m) && strings.Contains(k, subjContains) {
+				val, decided = v, true
+			}
+		}
+		var next []map[string]bool
+		for _, o := range out {
+			vals := []bool{val}
+			if !decided {
+				vals = []bool{false, true}
+			}
+			for _, v := range vals {
+				c := map[string]bool{}
+				for k, x := range o {
+					c[k] = x
+				}
+				c[m] = v
+				next = append(next, c)
+			}
+		}
+		out = next
+	}
+	return out
+}
+
+func bitsStr(b map[string]bool) string {
+	var ks []string
+	for k, v := range b {
+		ks = append(ks, fmt.Sprintf("%s=%v", k, v))
+	}
+	sort.Strings(ks)
+	return strings.Join(ks, " ")
 }
